@@ -1,0 +1,7 @@
+//go:build verif
+
+package config
+
+// Contracts for the goverif VC generator (/verif). Comment-only file: it adds no code.
+
+//@ type Config guarded_by mutex: properties, fileRefSet, values
